@@ -134,6 +134,7 @@ fn plan(p: &mut Plan<'_>) {
         }
         "C09" => {
             p.part(bufsim::send::SendBufSim, 300_000, 30_000_000, "seeded histories of write/extend/pick_up/ack/loss/resend_flighting with swarm-drawn op weights, then a draining packetiser; ack and loss ranges are picked ranges, sub-ranges, spans or arbitrary ranges below sent(); non-trivial = at least one retransmission was picked; distinct = hash of the op/result history");
+            p.part(streamsim::StreamSim { mode: streamsim::Mode::C01 }, 6_000, 600_000, "stream-level share: the buffer as the stream sender drives it (Ready/Send/DataSent/ResetSent states decide which ack and loss reports reach the buffer, FIN handling, window updates): two real DataStreams endpoints exchanging real frames through a drop/duplicate/reorder channel with spurious loss reports and late acks; every byte read equals the byte written at that position, and after the last fault every written byte and the FIN are delivered and flush/shutdown complete (a lost byte that is never offered again shows as a stalled stream); non-trivial = a fault fired and data moved");
             p.assumptions = vec!["ack/loss ranges never cover never-sent bytes (API precondition, debug_assert in BufMap)", "predicate allowance >= 1 (all in-tree callers)", "hook H2 (verif_colours) is a faithful read-only dump"];
         }
         "C07" | "C10" => {
